@@ -37,7 +37,7 @@ ASSUMPTIONS = [
     "inputs are the shapes/index maps the Python layer produces for the seeded worlds (<= 64 supercell atoms); equivalence with the reference over the whole input space is not decided here",
 ]
 
-DRIVERS = ["dm_batch", "dm_batch", "mesh_tp", "dos", "pdos", "ddm", "d2f", "gl_perq", "thm_iw", "qp_gv", "tp_direct", "dm_at_q_direct", "fc_kernels"]
+DRIVERS = ["dm_batch", "dm_batch", "mesh_tp", "dos", "pdos", "ddm", "d2f", "gl_perq", "thm_iw", "qp_gv", "tp_direct", "dm_at_q_direct", "fc_kernels", "tetra_mesh"]
 
 _E = None
 
@@ -297,6 +297,34 @@ def drv_dm_at_q_direct(ph, w, a, st):
     return out
 
 
+def drv_tetra_mesh(ph, w, a, st):
+    """TetrahedronMesh: phpy_get_tetrahedra_frequenies (parallel over tetrahedra vertices) + integration weights at
+    frequency points, plus the single-point and 'all main diagonals' helpers."""
+    from phonopy.phonon.tetrahedron_mesh import TetrahedronMesh
+    from phonopy.structure.tetrahedron_method import get_all_tetrahedra_relative_grid_address, get_tetrahedra_integration_weight
+
+    lang = st.get("lang", "C")
+    if "tm_inputs" not in st:
+        ph.run_mesh(_mesh_for_dos(a), is_mesh_symmetry=a["mesh_symmetry"], is_gamma_center=True)
+        m = ph.mesh
+        st["tm_inputs"] = (np.array(m.frequencies), np.array(m.mesh_numbers), np.array(m.grid_address, dtype="int64"),
+                           np.array(m.grid_mapping_table, dtype="int64"), np.array(m.ir_grid_points))
+    freqs, mesh, gaddr, gmap, irgp = st["tm_inputs"]
+    thm = TetrahedronMesh(ph.primitive, freqs, mesh, gaddr, gmap, irgp, lang=lang)
+    fpts = np.linspace(float(freqs.min()) - 0.1, float(freqs.max()) + 0.1, 7 + len(a["qpoints"]))
+    thm.set(value=a["thm_value"], frequency_points=fpts, lang=lang)
+    out = {}
+    for i, iw in enumerate(thm):
+        out["iw%d" % i] = np.array(iw)
+        if i >= 5:
+            break
+    if lang == "C":
+        out["all_rga"] = np.array(get_all_tetrahedra_relative_grid_address())
+        t_om = np.array(3.0 + np.sin(np.arange(96).reshape(24, 4) * 0.37), dtype="double", order="C")
+        out["iw_single"] = np.array([get_tetrahedra_integration_weight(x, t_om, function=a["thm_value"]) for x in (2.3, 3.1, 3.9)])
+    return out
+
+
 def drv_fc_kernels(ph, w, a, st):
     """The serial kernels behind force-constant handling, on the shapes and index maps the Python layer passes:
     distribute_fc2 (finite-difference solver), perm_trans_symmetrize_fc / _compact_fc, transpose_compact_fc (drift
@@ -347,9 +375,9 @@ def drv_fc_kernels(ph, w, a, st):
     return out
 
 
-DRV = dict(fc_kernels=drv_fc_kernels, dm_batch=drv_dm_batch, mesh_tp=drv_mesh_tp, dos=drv_dos, pdos=drv_pdos, ddm=drv_ddm, d2f=drv_d2f, gl_perq=drv_gl_perq,
+DRV = dict(tetra_mesh=drv_tetra_mesh, fc_kernels=drv_fc_kernels, dm_batch=drv_dm_batch, mesh_tp=drv_mesh_tp, dos=drv_dos, pdos=drv_pdos, ddm=drv_ddm, d2f=drv_d2f, gl_perq=drv_gl_perq,
            thm_iw=drv_thm_iw, qp_gv=drv_qp_gv, tp_direct=drv_tp_direct, dm_at_q_direct=drv_dm_at_q_direct)
-PY_LANG = {"ddm", "d2f", "thm_iw"}  # drivers with an in-repository Python version selectable by lang=
+PY_LANG = {"ddm", "d2f", "thm_iw", "tetra_mesh"}  # drivers with an in-repository Python version selectable by lang=
 
 
 def _scale(x):
@@ -529,7 +557,7 @@ def execute(spec):
         if driver in PY_LANG and not (driver == "ddm" and (a["compact"] or (ph.nac_params is not None and ph.nac_params.get("method") != "wang"))):
             E.use("serial")
             st2 = dict(st, lang="Py")
-            for k in ("d2f_dm", "d2f_q"):
+            for k in ("d2f_dm", "d2f_q", "tm_inputs"):
                 if k in st:
                     st2[k] = st[k]
             _reset(ph)
@@ -563,7 +591,11 @@ def execute(spec):
         if pyref is not None:
             # absolute floor on the natural scale of the quantity (thermal properties are O(1..100) kJ/mol, J/K/mol; a
             # 1e-8 kJ/mol difference between the C and the Python formula is constant/rounding noise, not a divergence)
-            bad, _ = compare(ref, pyref, 1e-8, atol=(1e-6 if driver == "mesh_tp" else 1e-10))
+            if driver == "tetra_mesh":
+                ref_cmp = {k: v for k, v in ref.items() if k in pyref}
+            else:
+                ref_cmp = ref
+            bad, _ = compare(ref_cmp, pyref, 1e-8, atol=(1e-6 if driver == "mesh_tp" else 1e-10))
             for name, d, sc in bad:
                 violations.append({"class": "reference-divergence", "site": "%s:%s" % (driver, name), "detail": dict(maxdiff=d, scale=sc, ref="in-repository Python version")})
             steps["python_reference_comparisons"] = 1
@@ -571,6 +603,7 @@ def execute(spec):
     sim.set_report_fd(-1)
     os.close(wfd)
     os.close(rfd)
+    probes["kernel_calls_on_simulated_runtime"] = sim.kernel_counts()
     probes["outputs_compared"] = compared
     probes["outputs_bit_identical"] = bit_identical
     res = {
